@@ -217,6 +217,76 @@ theorem prod_runs_side_by_side_from_slice {U B : Type} (I : Item T M A) (J : Ite
   obtain ⟨s2, e2, h2⟩ := fromSlice_refines J LJ (zs.map Prod.snd) (by simpa using hz)
   exact ⟨s, s1, s2, e, e1, e2, run_prod I J LI LJ s s1 s2 zs h h1 h2 ops hns⟩
 
+/-- Element types whose order ignores part of the value (`KV`: a record ordered by its key, a float with its two zeros): the
+    keyed `Min` / `Max` / `MinAdd` / `MaxAdd` (`Default` = any element `d`) are lawful **with the whole element as observable
+    value** — so `ask_spec` / `history_refines` fix *which* of several equal-comparing minima a query returns: the one the
+    left-to-right `merge` fold returns. -/
+theorem keyed_lawful (d : KV) :
+    Lawful (minKItem d) ∧ Lawful (maxKItem d) ∧ Lawful (minAddKItem d) ∧ Lawful (maxAddKItem d) :=
+  ⟨minKItem_lawful d, maxKItem_lawful d, minAddKItem_lawful d, maxAddKItem_lawful d⟩
+
+/-- `Combinator<MinAdd<T>, MaxAdd<T>>` over such an element type (what the harness runs as `mm:rec`, `mm:f64`, `mm:f32`) -/
+theorem keyed_combinator_lawful (d e : KV) : Lawful (prodItem (minAddKItem d) (maxAddKItem e)) :=
+  prodItem_lawful (minAddKItem_lawful d) (maxAddKItem_lawful e)
+
+/-- the tie rule of `Min::merge` / `Max::merge`: of two equal-comparing elements the RIGHT one is returned (the left operand
+    wins only when strictly smaller / greater), so the fold over a range returns its LAST minimal / maximal element -/
+theorem keyed_ties_go_right (d a b : KV) (h : a.k = b.k) : (minKItem d).op a b = b ∧ (maxKItem d).op a b = b := by
+  refine ⟨minK_tie_right d a b h, ?_⟩
+  show (if a.k > b.k then a else b) = b
+  rw [if_neg (by omega)]
+
+/-- an `update` override that resolves ties the other way round (`if right.v < left.v { right } else { left }`, seeded
+    change C01_m10) is **not** a lawful override: inner nodes would hold the first of equal minima, the straddling branch of
+    `ask` (which calls `merge`) the last, and the answer would depend on the node decomposition -/
+theorem min_left_tie_update_not_lawful (d : KV) :
+    ¬ Lawful { minKItem d with update := fun _ l r => if r.k < l.k then r else l } :=
+  minK_left_tie_update_not_lawful d
+
+/-- Feeding a value the API returned back into the API — `dst.set(i, src.ask(l, r))`, `dst` another live tree of the type
+    (`x i l r` in the correspondence) or `src` itself (`cp i l r`, second part) — is an ordinary `ask` followed by an ordinary
+    `set` of the returned item: the source still represents `xs`, the destination represents `ys` with element `i` replaced
+    by that item, whose observable value is the plain list's left-to-right fold of `xs[l..=r]`. -/
+theorem transfer_refines (I : Item T M A) (L : Lawful I) (s d : Seg T) (xs ys : List T) (hs : Inv I s xs) (hd : Inv I d ys)
+    (i l r : Nat) (hlr : l ≤ r) (hr : r < xs.length) :
+    ∃ x s' a, s.ask I l r = .ok (x, s') ∧ Spec.ask I xs l r = .ok a ∧ I.val x = a ∧ Inv I s' xs ∧
+      (i < ys.length → ∃ d', d.set I i x = .ok d' ∧ Spec.set ys i x = .ok (ys.set i x) ∧ Inv I d' (ys.set i x)) ∧
+      (i < xs.length → ∃ s'', s'.set I i x = .ok s'' ∧ Spec.set xs i x = .ok (xs.set i x) ∧ Inv I s'' (xs.set i x)) := by
+  obtain ⟨x, s', a, e1, e2, e3, h'⟩ := ask_refines I L s xs hs l r hlr hr
+  exact ⟨x, s', a, e1, e2, e3, h', fun hi => set_refines I L d ys hd i x hi, fun hi => set_refines I L s' xs h' i x hi⟩
+
+/-- Feeding returned values back into a **constructor**: the `n` single-element asks (`debug()` without the formatting) observe
+    the plain list and leave the tree representing it; `from_slice` / `from_iter` of the items read back, and `new(n, ask(0, n-1))`,
+    build trees that represent exactly those items (`y slice | iter | new` in the correspondence). -/
+theorem rebuild_refines (I : Item T M A) (L : Lawful I) (s : Seg T) (xs : List T) (hI : Inv I s xs) :
+    (s.debug I).1.map I.val = xs.map I.val ∧ Inv I (s.debug I).2 xs ∧
+    (∃ d, Seg.fromSlice I (s.debug I).1 = .ok d ∧ Inv I d (s.debug I).1) ∧
+    (∃ d, Seg.fromIter I (s.debug I).1 = .ok d ∧ Inv I d (s.debug I).1) ∧
+    (∃ x s' a d, s.ask I 0 (s.n - 1) = .ok (x, s') ∧ Spec.ask I xs 0 (s.n - 1) = .ok a ∧ I.val x = a ∧ Inv I s' xs ∧
+      Seg.new I s.n x = .ok d ∧ Inv I d (List.replicate s.n x)) := by
+  have hI' : Inv I ⟨s.n, s.t⟩ xs := by cases s; exact hI
+  obtain ⟨e1, e2⟩ := debugLoop_spec I L s.n xs s.n 0 s.t hI' (by omega)
+  have hne : (s.debug I).1 ≠ [] := by
+    intro h
+    have : ((s.debug I).1.map I.val).length = (xs.map I.val).length := by
+      show ((debugLoop I s.n s.t 0 s.n).1.map I.val).length = _
+      rw [e1, List.drop_zero]
+    rw [h] at this
+    have hp := hI.pos
+    simp at this
+    omega
+  have hn : 0 < s.n := by rw [hI.len]; exact hI.pos
+  refine ⟨by show (debugLoop I s.n s.t 0 s.n).1.map I.val = _; rw [e1, List.drop_zero], e2,
+    fromSlice_refines I L _ hne, fromIter_refines I L _ hne, ?_⟩
+  obtain ⟨x, s', a, a1, a2, a3, a4⟩ := ask_refines I L s xs hI 0 (s.n - 1) (Nat.zero_le _) (by rw [← hI.len]; omega)
+  obtain ⟨d, d1, d2⟩ := new_refines I L s.n x hn
+  exact ⟨x, s', a, d, a1, a2, a3, a4, d1, d2⟩
+
+
+/-- `Sum<T>` over an element type whose `+` is associative but not commutative (harness type `Cat`, `sum:cat`): lawful, so
+    `ask` is the concatenation in array order -/
+theorem sum_noncommutative_lawful : Lawful catSumItem := catSumItem_lawful
+
 /-! ## non-vacuity -/
 
 section examples
@@ -316,6 +386,45 @@ example : ∃ s, Seg.new (guardItem (maxAddItem ⟨false, 8⟩) (maxAddGuard ⟨
 /-- `guarded_spec_is_item_spec` on a concrete list: the flags (here one `false`) do not show in the specification -/
 example : Spec.ask (guardItem sumAddItem (sumAddGuard ⟨false, 8⟩)) [(⟨3, 1, 0⟩, true), (⟨200, 1, 0⟩, false), (⟨7, 1, 0⟩, true)] 0 2 =
     .ok (210, 3) ∧ Spec.ask sumAddItem [⟨3, 1, 0⟩, ⟨200, 1, 0⟩, ⟨7, 1, 0⟩] 0 2 = .ok (210, 3) := by decide
+
+/-- duplicated minima with distinct payloads: the queries return the LAST minimal record of the range (whatever the node
+    decomposition), also after a `set` that creates a new tie; `Max` likewise -/
+example : ∃ s, Seg.fromSlice (minKItem ⟨i64Max, 0⟩) [⟨1, 0⟩, ⟨1, 1⟩, ⟨1, 2⟩, ⟨3, 3⟩, ⟨2, 4⟩] = .ok s ∧
+    s.run (minKItem ⟨i64Max, 0⟩) [.ask 0 2, .ask 0 1, .ask 0 4, .set 4 ⟨1, 9⟩, .ask 0 4, .ask 1 3, .dbg] =
+      [.val ⟨1, 2⟩, .val ⟨1, 1⟩, .val ⟨1, 2⟩, .done, .val ⟨1, 9⟩, .val ⟨1, 2⟩, .vals [⟨1, 0⟩, ⟨1, 1⟩, ⟨1, 2⟩, ⟨3, 3⟩, ⟨1, 9⟩]] := by
+  obtain ⟨s, e, h⟩ := history_refines_from_slice (minKItem ⟨i64Max, 0⟩) (keyed_lawful _).1
+    [⟨1, 0⟩, ⟨1, 1⟩, ⟨1, 2⟩, ⟨3, 3⟩, ⟨2, 4⟩] (by simp)
+    [.ask 0 2, .ask 0 1, .ask 0 4, .set 4 ⟨1, 9⟩, .ask 0 4, .ask 1 3, .dbg] (by simp [OpsOK, OpOK])
+  exact ⟨s, e, by rw [h]; decide⟩
+
+/-- `Min<f64>` over `[1.5, +0.0, -0.0, 2.0]` (bit patterns, keys by `ordKey`): the two zeros tie, the answer is `-0.0` -/
+example : f64Fmt.ordKey 0x8000000000000000 = f64Fmt.ordKey 0 ∧
+    Spec.ask (minKItem ⟨f64Fmt.ordKey f64Fmt.maxBits, f64Fmt.maxBits⟩)
+      [⟨f64Fmt.ordKey 0x3FF8000000000000, 0x3FF8000000000000⟩, ⟨f64Fmt.ordKey 0, 0⟩,
+       ⟨f64Fmt.ordKey 0x8000000000000000, 0x8000000000000000⟩, ⟨f64Fmt.ordKey 0x4000000000000000, 0x4000000000000000⟩] 0 3 =
+      .ok ⟨0, 0x8000000000000000⟩ := by decide
+
+/-- a lazy keyed item: `MinAdd` over records, a range add (key and tag), a tie created by it, a copy-back -/
+example : ∃ s, Seg.fromSlice (minAddKItem ⟨i64Max, 0⟩) [⟨⟨2, 0⟩, kvZero⟩, ⟨⟨1, 1⟩, kvZero⟩, ⟨⟨1, 2⟩, kvZero⟩] = .ok s ∧
+    s.run (minAddKItem ⟨i64Max, 0⟩) [.modify 0 0 ⟨-1, 5⟩, .ask 0 2, .ask 0 1, .modify 0 2 ⟨10, 0⟩, .ask 0 1, .dbg] =
+      [.done, .val ⟨1, 2⟩, .val ⟨1, 1⟩, .done, .val ⟨11, 1⟩, .vals [⟨11, 5⟩, ⟨11, 1⟩, ⟨11, 2⟩]] := by
+  obtain ⟨s, e, h⟩ := history_refines_from_slice (minAddKItem ⟨i64Max, 0⟩) (keyed_lawful _).2.2.1
+    [⟨⟨2, 0⟩, kvZero⟩, ⟨⟨1, 1⟩, kvZero⟩, ⟨⟨1, 2⟩, kvZero⟩] (by simp)
+    [.modify 0 0 ⟨-1, 5⟩, .ask 0 2, .ask 0 1, .modify 0 2 ⟨10, 0⟩, .ask 0 1, .dbg] (by simp [OpsOK, OpOK])
+  exact ⟨s, e, by rw [h]; decide⟩
+
+/-- `transfer_refines` is not vacuous: two trees built from the same list satisfy its hypotheses -/
+example : ∃ s d : Seg MinAdd, Inv (minAddItem .i64) s [⟨3, 0⟩, ⟨1, 0⟩] ∧ Inv (minAddItem .i64) d [⟨3, 0⟩, ⟨1, 0⟩] := by
+  obtain ⟨s, _, h⟩ := fromSlice_refines (minAddItem .i64) (minAdd_lawful .i64) [⟨3, 0⟩, ⟨1, 0⟩] (by simp)
+  exact ⟨s, s, h, h⟩
+
+/-- `rebuild_refines` is not vacuous, and `Sum` over a non-commutative `+` answers in array order -/
+example : ∃ s, Seg.fromSlice catSumItem [[0], [1], [2, 3]] = .ok s ∧ Inv catSumItem s [[0], [1], [2, 3]] ∧
+    s.run catSumItem [.ask 0 2, .ask 1 2, .set 0 [5, 5], .ask 0 1] = [.val [0, 1, 2, 3], .val [1, 2, 3], .done, .val [5, 5, 1]] := by
+  obtain ⟨s, e, h⟩ := fromSlice_refines catSumItem sum_noncommutative_lawful [[0], [1], [2, 3]] (by simp)
+  refine ⟨s, e, h, ?_⟩
+  rw [run_refines catSumItem sum_noncommutative_lawful _ s _ h (by simp [OpsOK, OpOK])]
+  decide
 
 end examples
 
